@@ -65,9 +65,10 @@ try:
         out['checks'][p] = {'exit': r.returncode, 'caught': r.returncode == 1, 'lines': lines[:6], 'why': why[:3], 'wall_s': round(time.time() - t)}
     dst = os.path.join(V, 'seeded', a.seed_id)
     os.makedirs(dst, exist_ok=True)
-    shutil.copy(os.path.join(a.src, 'patch.diff'), dst)
-    for d in demos:
-        shutil.copy(d, dst)
+    if os.path.realpath(a.src) != os.path.realpath(dst):
+        shutil.copy(os.path.join(a.src, 'patch.diff'), dst)
+        for d in demos:
+            shutil.copy(d, dst)
     meta = {}
     mp = os.path.join(a.src, 'meta.json')
     if os.path.exists(mp):
